@@ -79,8 +79,30 @@ def gen_tree_case(rng, k):
     return {"id": k, "kind": kind, "ivs": ivs, "qs": qs, "ps": ps}
 
 
+NARROW = {"int8": (200, -100, 100, 20), "uint8": (300, 0, 230, 20), "float16": (2100, 0, 2000, 40)}
+
+
+def gen_narrow_cases(seed, k0):
+    """Directed (seeded change C03-m): interval arrays of a narrow numpy dtype with MORE rows than that dtype can count
+    (int8 > 127, uint8 > 255, float16 > 2048; all end points exactly representable).  The answers are row numbers, not
+    values of the intervals' type.  Own random stream, appended after the random cases."""
+    import random
+    rng = random.Random(f"C03-narrow:{seed}")
+    cases = []
+    for j, (kind, (n, lo, hi, w)) in enumerate(sorted(NARROW.items())):
+        ivs = []
+        for _ in range(n):
+            a = rng.randint(lo, hi)
+            ivs.append((a, a + rng.randint(0, w)))
+        ends = sorted({x for iv in ivs for x in iv})
+        qs = [(a, a + rng.randint(0, 3)) for a in (rng.randint(lo, hi) for _ in range(5))] + [(ends[-1], ends[-1] + 1)]
+        ps = [rng.randint(lo, hi) for _ in range(5)] + [ends[0], ends[-1]]
+        cases.append({"id": k0 + j, "kind": kind, "ivs": ivs, "qs": qs, "ps": ps, "directed": "narrow-dtype"})
+    return cases
+
+
 def convert(kind, v):
-    if kind in ("int", "smallint"):
+    if kind in ("int", "smallint") or kind in NARROW:
         return int(v)
     if kind == "float":
         return v * 0.1 + (0.03 if v % 3 else 0.0)           # strictly monotone in v, not exactly representable
@@ -106,7 +128,7 @@ def run_tree_impl(case):
             obs[name] = "ERR:RecursionError"
         except Exception as e:  # noqa
             obs[name] = f"ERR:{type(e).__name__}: {str(e)[:80]}"
-    arr = ivs if kind == "smallint" else np.asarray(ivs)
+    arr = ivs if kind == "smallint" else np.asarray(ivs, dtype=kind) if kind in NARROW else np.asarray(ivs)
     try:
         tree = IntervalTree(arr)
     except Exception as e:  # noqa
@@ -523,6 +545,7 @@ def run(ctx):
     nm = ctx.n(60, 1500)
     tree_cases = [gen_tree_case(ctx.rng, k) for k in range(nt)]
     match_cases = [gen_match_case(ctx.rng, k) for k in range(nm)]
+    tree_cases += gen_narrow_cases(ctx.seed, nt)       # after every draw from ctx.rng: older cases keep their inputs
     match_cases += gen_period_cases(ctx.rng, nm, ctx.n(36, 600))
     a = check_tree_cases(ctx, tree_cases)
     b = check_match_cases(ctx, match_cases)
@@ -532,7 +555,7 @@ def run(ctx):
                        "for FileSet.match; a case is non-trivial when at least one query has a non-empty answer and at "
                        "least one answer is not the whole set; distinct by input")
     ctx.cov["input_distribution"] = {
-        "tree_cases": nt, "match_cases": len(match_cases),
+        "tree_cases": len(tree_cases), "tree_narrow_dtype_cases": len(NARROW), "match_cases": len(match_cases),
         "match_period_kinds": {k: sum(1 for c in match_cases if c.get("directed", "random") == k)
                                for k in sorted({c.get("directed", "random") for c in match_cases})},
         "match_open_sides": sum(1 for c in match_cases if c["start"] is None or c["end"] is None),
